@@ -169,8 +169,8 @@ def attribution_obligations(rep):
     from mindsdb_sql.parser.ast import BinaryOperation, Identifier, Constant
     from mindsdb_sql.planner.plan_join import TableInfo
     fn = f'{PJ}:PlanJoinTablesQuery.check_node_condition'
-    for case in ('table2', 'unqualified', 'unknown-table', 'col-vs-col', 'const-first'):
-        def make_args(ex, case=case):
+    for case, opname in (('table2', '='), ('unqualified', '='), ('unknown-table', '='), ('col-vs-col', '='), ('const-first', '='), ('const-first-lt', '<'), ('const-first-ge', '>='), ('table2-lt', '<')):
+        def make_args(ex, case=case.split('-lt')[0].split('-ge')[0], opname=opname):
             from mindsdb_sql.planner.plan_join import PlanJoinTablesQuery
             selfo = SymObj({PlanJoinTablesQuery}, 'self', prov='param')      # helper methods resolve on the real class
             t1 = SymObj({TableInfo}, 'table_info1', prov='param')
@@ -190,12 +190,12 @@ def attribution_obligations(rep):
             node = SymObj({BinaryOperation}, 'node', prov='param')
             node.copyable = True
             args = [other, col] if case == 'const-first' else [col, other]
-            node.fields.update(op='=', args=ex.param_container(args), alias=None, parentheses=False)
+            node.fields.update(op=opname, args=ex.param_container(args), alias=None, parentheses=False)
             ex.stubs[('mindsdb_sql.parser.ast.base', 'ASTNode.to_string')] = lambda ex_, a, k, node_=None: 'ident'
             ex.path_state.update(t1=t1, t2=t2, node=node)
             return [selfo, node], {}
 
-        def post(ex, o, case=case):
+        def post(ex, o, case=case.split('-lt')[0].split('-ge')[0], opname=opname):
             from mindsdb_sql.exceptions import PlanningException
             st = o.state
             c1, c2 = st['t1'].fields['conditions'], st['t2'].fields['conditions']
@@ -215,13 +215,28 @@ def attribution_obligations(rep):
             if cp.fields.get('_orig_node') is not st['node']:
                 return 'link to the original node missing'
             ci = 1 if case == 'const-first' else 0
-            if cp.fields['args'][ci].fields['parts'] != ['y']:
-                return f'table qualifier not removed in the stored copy: {cp.fields["args"][ci].fields["parts"]}'
-            if st['node'].fields['args'][ci].fields['parts'] not in (['T2', 'y'], ['t2', 'y']):
+            # the stored comparison must denote the WHERE conjunct: same operator with the operands in the same order, or the mirrored operator with swapped operands
+            sargs = cp.fields.get('args')
+            if not isinstance(sargs, list) or len(sargs) != 2:
+                return f'stored condition has operands {sargs!r}'
+            col_at = [i for i, a in enumerate(sargs) if isinstance(a, SymObj) and 'parts' in (a.fields or {})]
+            if len(col_at) != 1:
+                return 'stored condition is not column <op> constant'
+            mirror = {'=': '=', '<': '>', '>': '<', '<=': '>=', '>=': '<=', '!=': '!=', '<>': '<>'}
+            sop = cp.fields.get('op')
+            want = opname if col_at[0] == ci else mirror.get(opname)
+            if sop != want:
+                return f'the conjunct `{"const " + opname + " col" if ci else "col " + opname + " const"}` is stored as `{"const " + str(sop) + " col" if col_at[0] else "col " + str(sop) + " const"}`, which is a different predicate'
+            if sargs[col_at[0]].fields['parts'] != ['y']:
+                return f'table qualifier not removed in the stored copy: {sargs[col_at[0]].fields["parts"]}'
+            if sargs[1 - col_at[0]].fields.get('value') != 1:
+                return 'the constant of the stored condition differs'
+            if st['node'].fields['args'][ci].fields['parts'] not in (['T2', 'y'], ['t2', 'y']) or st['node'].fields.get('op') != opname:
                 return 'the original WHERE node was modified'
             return None
         v = pysym.verify(PJ, 'PlanJoinTablesQuery.check_node_condition', make_args, post)
-        _emit(rep, f'C14.attr.{case}', v, fn, 'a `qualified column <op> constant` comparison is copied (qualifier removed, original linked) into the conditions of exactly the table its qualifier names')
+        _emit(rep, f'C14.attr.{case}', v, fn, 'a `qualified column <op> constant` comparison is copied (qualifier removed, original linked, same predicate) into the conditions of exactly the table its qualifier names',
+              replay=(lambda case=case, opname=opname: replay_attr(case.startswith('const-first'), opname)))
 
 
 def colmap_obligations(rep):
@@ -287,6 +302,32 @@ CONTEXTS = {
     'is-null': '(m.x = 2) IS NULL',
 }
 TOP = {'top', 'and'}
+
+
+def replay_attr(const_first, opname):
+    """plans a model join whose WHERE is `10 <op> t.a` / `t.a <op> 10` and evaluates the filter placed in the table fetch against the conjunct for a = 5, 10, 15"""
+    import operator
+    from mindsdb_sql.planner.steps import FetchDataframeStep
+    from mindsdb_sql.parser.ast import BinaryOperation, Identifier, Constant
+    cond = f'10 {opname} t.a' if const_first else f't.a {opname} 10'
+    sql = f'SELECT * FROM int1.tbl1 AS t JOIN mindsdb.pred AS m WHERE {cond}'
+    ops = {'=': operator.eq, '<': operator.lt, '>': operator.gt, '<=': operator.le, '>=': operator.ge, '!=': operator.ne, '<>': operator.ne}
+    try:
+        p = plan(sql)
+        f = [s_ for s_ in p.steps if isinstance(s_, FetchDataframeStep)][0]
+        w = f.query.where
+        if not isinstance(w, BinaryOperation) or w.op not in ops:
+            return {'input': sql, 'dialect': 'mindsdb', 'fires': False, 'observed': f'fetch where = `{w}`'}
+        diff = []
+        for a in (5, 10, 15):
+            vals = [a if isinstance(x, Identifier) else x.value for x in w.args]
+            got = ops[w.op](*vals)
+            want = ops[opname](10, a) if const_first else ops[opname](a, 10)
+            if got != want:
+                diff.append(a)
+        return {'input': sql, 'dialect': 'mindsdb', 'fires': bool(diff), 'observed': f'the fetch of tbl1 is filtered by `{w}`, which differs from `{cond}` for a in {diff}', 'expected': f'a filter equivalent to `{cond}`'}
+    except Exception as e:
+        return {'input': sql, 'dialect': 'mindsdb', 'fires': False, 'observed': f'{type(e).__name__}: {e}'[:120]}
 
 
 def replay_model(sql):
